@@ -26,6 +26,7 @@ func init() {
 	register(&Workload{Prop: "C14", Variant: "cut-enum", Horizon: 30 * time.Minute, MaxSteps: 1500000, MaxG: 8192, Spin: 40000, PCTLen: 8000, Weight: 6, Body: c14CutEnum})
 	register(&Workload{Prop: "C14", Variant: "refuse-restart", Horizon: 30 * time.Minute, MaxSteps: 1500000, MaxG: 8192, Spin: 40000, PCTLen: 8000, Weight: 3, Body: c14RefuseRestart})
 	register(&Workload{Prop: "C14", Variant: "bad-frames", Horizon: 30 * time.Minute, MaxSteps: 1500000, MaxG: 8192, Spin: 40000, PCTLen: 8000, Weight: 2, Body: c14BadFrames})
+	register(&Workload{Prop: "C14", Variant: "two-faults", Horizon: 30 * time.Minute, MaxSteps: 1500000, MaxG: 8192, Spin: 40000, PCTLen: 8000, Weight: 2, Body: c14TwoFaults})
 	register(&Workload{Prop: "C14", Variant: "oversize", Horizon: 30 * time.Minute, MaxSteps: 3000000, MaxG: 8192, Spin: 40000, PCTLen: 8000, Weight: 1, Body: c14Oversize})
 	register(&Workload{Prop: "C14", Variant: "tell-latency", Horizon: 30 * time.Minute, MaxSteps: 1500000, MaxG: 8192, Spin: 40000, PCTLen: 8000, Weight: 1, Body: c14TellLatency})
 }
@@ -618,6 +619,94 @@ func c14Oversize(r *R) {
 		return
 	}
 	r.Count("oversized-message-checked")
+	_ = a.Stop()
+	_ = b.Stop()
+}
+
+// c14TwoFaults: two connection faults on one sender->address mailbox. First the peer refuses connections for a while, so
+// that a message gets through only on a retry; after some healthy traffic all connections are reset while the peer stays
+// reachable. With ReconnectLimit >= 1 the messages sent after the reset have a retry that finds the peer: none of them may
+// be given up as a dead letter (retry state must not leak from one message, or one fault, to the next). The usual flow
+// rules (subsequence, no duplicate, nothing both delivered and dead-lettered) apply throughout.
+func c14TwoFaults(r *R) {
+	nw := simnet.New()
+	nw.ChunkMode = simnet.ChunkMixed
+	limit := []int{1, 2, 3}[r.Choose(3)]
+	opt := RNodeOpt{ReconnectLimit: limit, InitialDelay: 50 * time.Millisecond, MaxDelay: 200 * time.Millisecond, Jitter: false}
+	a := StartRNode(r, nw, 1, c14AddrA, opt)
+	if r.Failed() {
+		return
+	}
+	b := StartRNode(r, nw, 2, c14AddrB, opt)
+	if r.Failed() {
+		return
+	}
+	b.Sink("sink")
+	vsimrt.Settle()
+	var ref vivid.ActorRef
+	a.Do(func() { ref, _ = a.Sys.CreateRef(c14AddrB, "/sink") })
+	tell := func(k int) { a.Do(func() { a.Sys.Tell(ref, newRMsg("m", int64(k), 32, 0)) }) }
+	warm := r.Chance(50)
+	k := 0
+	if warm {
+		tell(k) // the connection exists before the first fault
+		k++
+		vsimrt.SettleFor(100 * time.Millisecond)
+	}
+	// fault 1: refused (and, if warm, reset) for a period that ends between two retries: back-off 50, 100, 200, 200 ms
+	retries := 1 + r.Choose(limit)
+	refuseFor := []time.Duration{25 * time.Millisecond, 100 * time.Millisecond, 250 * time.Millisecond}[retries-1]
+	nw.Refuse(c14AddrB, true)
+	nw.CutAll(1, 2)
+	firstFaulted := k
+	tell(k)
+	k++
+	vsimrt.Sleep(refuseFor)
+	nw.Refuse(c14AddrB, false)
+	r.Count("fault:refuse-period")
+	vsimrt.SettleFor(time.Second)
+	healthy := 1 + r.Choose(3)
+	for i := 0; i < healthy; i++ {
+		tell(k)
+		k++
+		vsimrt.Sleep(50 * time.Millisecond)
+	}
+	vsimrt.SettleFor(300 * time.Millisecond)
+	// fault 2: reset of the established connection, peer reachable all the time
+	nw.CutAll(1, 2)
+	r.Count("fault:reset-all")
+	afterReset := k
+	for i := 0; i < 4; i++ {
+		tell(k)
+		k++
+		vsimrt.Sleep(300 * time.Millisecond)
+	}
+	vsimrt.SettleFor(2 * time.Second)
+	r.Sample(map[string]any{"reconnect_limit": limit, "first_fault_refuses_for": refuseFor.String(), "warm_connection": warm, "healthy_between": healthy})
+	what := "two-faults"
+	got, ok := c14CheckFlow(r, a, b, "m", k, what)
+	if !ok {
+		return
+	}
+	a.mu.Lock()
+	dls := append([]string(nil), a.deadLetters...)
+	a.mu.Unlock()
+	for _, d := range dls {
+		for i := afterReset; i < k; i++ {
+			if d == fmt.Sprintf("m#%d", i) {
+				r.Fail("C14/dead-letter-without-retries after-second-fault", "message #%d was sent after a connection reset with the peer reachable all the time and ReconnectLimit %d, yet it was given up as a dead letter (an earlier message, #%d, had needed retries during a refusal period of %v; %d healthy message(s) in between); delivered: %v; dead letters: %v; connections dialled: %d", i, limit, firstFaulted, refuseFor, healthy, keys64(got), dls, nw.StatsCopy().Dials)
+				return
+			}
+		}
+	}
+	for i := k - 2; i < k; i++ {
+		if !got[int64(i)] {
+			r.Fail("C14/no-recovery two-faults", "message #%d, sent well after the connection reset with the peer reachable, never arrived (delivered: %v; dead letters: %v)", i, keys64(got), dls)
+			return
+		}
+	}
+	r.Count("two-faults-checked")
+	netFaultCounts(r, nw)
 	_ = a.Stop()
 	_ = b.Stop()
 }
